@@ -183,7 +183,7 @@ CLAIMS['C09'] = {
              "same verdict and, when accepted, EQUAL observations O2 and O3 (the final registries agree as maps; a module's list of definition paths may differ "
              "in order, which the emitter sorts away – the literal state equality is refuted: case_schedule_independent_nogenref_refuted; which of an error and the "
              "modelled allocation panic of a huge vftable comes first may also depend on the order: …_refuted_panic, excluded under `Small`). Without NoGenRefs the "
-             "statement is false (the three open findings are exactly inputs that mention a generated name). The unconditional claim is decided on the implementation on every run: all permutations of the "
+             "statement is false (the four open findings are exactly inputs that mention a generated name). The unconditional claim is decided on the implementation on every run: all permutations of the "
              "resolution priority (exhaustive up to 5/6 user items) through the pyxis_verif hook, all module-addition orders, repeated "
              "builds in one process, hook-free runs in fresh processes; all variants must be byte-identical or all fail. Known open "
              "finding: a signature naming a generated <T>Vftable type."),
